@@ -298,8 +298,8 @@ INFO.update({
                    caught_by="median n=6 even=0 shape=(3, 2)", initially_missed=True,
                    strengthening="the median without a width was only run on 1-D input; 2-D and 3-D shapes added"),
     'r4-C15': dict(change="computechi2.var computed from the SVD through `wwt = self.ww` without a copy (reading var overwrites the singular values)", needs="var read before the first read of covar on one object",
-                   caught_by="computechi2 2 parameters (read order chosen by the solver)", initially_missed=True,
-                   strengthening="the results were read in one fixed order; the order is now a solver choice among four orders that contain every ordered pair of attributes, and each result is read twice"),
+                   caught_by="computechi2 2 parameters read_order=1 (var read before covar)", initially_missed=True,
+                   strengthening="the results were read in one fixed order; there is now one obligation per reading order (four orders that contain every ordered pair of attributes), and each result is read twice"),
     'r4-C16': dict(change="readspec: table columns re-ordered by scatter `column[j] = data` instead of gather `data[j]`", needs=">= 2 plate-MJD groups whose grouping permutation is not self-inverse",
                    caught_by="readspec n=3 latest (photometry / redshift row i belongs to request i)", initially_missed=False),
     'r4-C17': dict(change="djs_reject: `qdone` from equal mask sums instead of equal masks", needs="a later iteration, not sticky, as many points returning as newly rejected",
